@@ -153,8 +153,12 @@ class Loader(yaml.SafeLoader):
             node, expected_type))
 
         # figure out how to interpret this node
-        recognized_types, result = self.__recognizer.recognize(
-            node, expected_type)
+        try:
+            recognized_types, result = self.__recognizer.recognize(
+                node, expected_type)
+        except SeasoningError as e:
+            raise RecognitionError(
+                    '{}\n{}'.format(node.start_mark, e.args[0]))
 
         if len(recognized_types) != 1:
             raise RecognitionError(format_rec_error(result))
@@ -200,7 +204,11 @@ class Loader(yaml.SafeLoader):
                 for attr_name, type_, _ in class_subobjects(recognized_type):
                     cnode = Node(node)
                     if cnode.has_attribute(attr_name):
-                        subnode = cnode.get_attribute(attr_name)
+                        try:
+                            subnode = cnode.get_attribute(attr_name)
+                        except SeasoningError as e:
+                            raise RecognitionError('{}\n{}'.format(
+                                node.start_mark, e.args[0]))
                         new_subnode = self.__process_node(
                             subnode.yaml_node, type_)
                         cnode.set_attribute(attr_name, new_subnode)
